@@ -123,20 +123,12 @@ def plain_violations(raw, path="raw"):
 
 def leaf_class(tname):
     """Mechanism class of a non-plain leaf type."""
-    if tname in ("float64",):
+    if tname == "float64":
         return "numpy-float64"
-    if tname.startswith("float"):
-        return "numpy-float-other"
-    if tname.startswith(("int", "uint")) and tname not in ("int",):
-        return "numpy-int"
-    if tname in ("bool_", "bool"):
-        return "numpy-bool"
-    if tname == "tuple":
-        return "tuple"
-    if tname == "ndarray":
-        return "ndarray"
-    if tname == "str_":
-        return "numpy-str"
+    if tname.startswith(("float", "int", "uint", "bool", "longdouble", "str_")):
+        return "numpy-scalar"  # only non-plain leaves get here, so "bool" is numpy's
+    if tname in ("tuple", "ndarray"):
+        return tname
     return "other"
 
 
@@ -166,7 +158,7 @@ def roundtrip(ck, cls, obj, mech_prefix, key, nontrivial, sample, container_of=N
         classes = sorted({(container_of(p) if container_of else "field") + ":" + leaf_class(t) for p, t in bad}) or ["other"]
         for c in classes:
             ck.violation(
-                f"{mech_prefix}/raw-not-plain/{c}",
+                f"C40/raw_field/not-plain/{c}",
                 f"{cls.__name__}.raw is not plain data: {bad[:4]}" + ("" if dumped else f"; yaml.safe_dump raises {type(dump_exc).__name__}: {str(dump_exc)[:120]}"),
                 dict(witness, offending=bad[:10]),
             )
@@ -233,7 +225,8 @@ def npify(rng, v):
         return np.int64(v)
     if isinstance(v, float):
         t = NP_FLOAT[int(rng.integers(len(NP_FLOAT)))]
-        return t(v)  # the rounded value *is* the field value from now on
+        with np.errstate(over="ignore"):
+            return t(v)  # the rounded value *is* the field value from now on
     return None
 
 
@@ -650,7 +643,7 @@ def check_interpolator(ck, root):
             if val.get("read_card_is_log") != want["log"]:
                 ck.violation("C40/interpolator/archived-card-is_log", f"archived operator card says is_log={val.get('read_card_is_log')}, declared {want['log']}", wit)
                 bad = True
-            elif val.get("read_xgrid_log") != want["log"] or val.get("read_card_xgrid_log") != want["log"]:
+            elif val.get("read_xgrid_log") != want["log"]:
                 ck.violation(
                     "C40/archive/xgrid-log-flag",
                     f"EKO computed with interpolation_is_log={want['log']} reads back with xgrid.log={val.get('read_xgrid_log')} (card xgrid.log={val.get('read_card_xgrid_log')})",
